@@ -1,4 +1,5 @@
 import RcVerif.Lemmas.ElasticBuf
+import RcVerif.Lemmas.ConnIOBuf
 /-
   C19 — the I/O buffers behave as exact FIFO byte queues.
 
@@ -12,7 +13,12 @@ import RcVerif.Lemmas.ElasticBuf
   * `C19_elastic` - `elastic.Buffer` (ring first, list beyond `maxStaticBytes`) together with a second
                     `elastic.RingBuffer` sharing the ring pool: same, and a ring taken from the pool is always empty.
 
-  The models are `RcVerif.Model.Ring / LList / Elastic`; their constants (default size, growth threshold) are
+  * `C19_conn_stream` - the users (core/connection.go `write` / `writev`, core/eventloop.go `write`): whatever number
+                    of bytes the kernel accepts in each call (partial writes, EAGAIN), the bytes on the wire followed
+                    by the backlog are exactly the bytes handed to the connection, in order: a slow reader gets every
+                    reply complete and uncorrupted.
+
+  The models are `RcVerif.Model.Ring / LList / Elastic / ConnIO`; their constants (default size, growth threshold) are
   regenerated from the Go source. Not modelled: ReadFrom / WriteTo, pool size calibration, int overflow in `grow`,
   the recycling of byte slices (`bsPool`) - the backing memory is a value here, so aliasing of recycled memory
   cannot be expressed (the sim view's byte-exact comparison of streams is what would show it).
@@ -388,6 +394,63 @@ theorem C19_elastic (maxStatic : Nat) (ops : List EOp) :
     ⟨pinv_empty, ⟨fun _ h => by simp at h, inv_empty⟩, fun _ h => by simp at h⟩
   obtain ⟨i1, i2⟩ := runE_refines ops _ h0
   exact ⟨i2, ebuf_buffered _ i1.a, ering_buffered _ i1.r, fun r hr => (i1.pool.priv r hr).2, fun r hr => (i1.pool.shared r hr).2⟩
+
+/-! ### the users: a connection's write path under arbitrary short writes -/
+
+inductive COp
+  | writev (bs : List Bytes) (accepted : Nat)
+  | write (data : Bytes) (accepted : Nat)
+  | writable (accepted : Nat)
+  deriving Repr
+
+def cstep (s : Pool × ConnIO.Conn) : COp → Pool × ConnIO.Conn
+  | .writev bs acc => ConnIO.writev s.1 s.2 bs acc
+  | .write d acc => ConnIO.write s.1 s.2 d acc
+  | .writable acc => ConnIO.flush s.1 s.2 acc
+
+def submitted : List COp → Bytes
+  | [] => []
+  | .writev bs _ :: ops => bs.flatten ++ submitted ops
+  | .write d _ :: ops => d ++ submitted ops
+  | .writable _ :: ops => submitted ops
+
+open RcVerif.Lemmas.ConnIOBuf in
+theorem cstep_spec (s : Pool × ConnIO.Conn) (h : CInv s.1 s.2) (op : COp) :
+    CInv (cstep s op).1 (cstep s op).2 ∧ stream (cstep s op).2 = stream s.2 ++ submitted [op] := by
+  cases op with
+  | writev bs acc =>
+    have := writev_spec s.1 s.2 h bs acc
+    simpa [submitted, cstep] using this
+  | write d acc =>
+    have := RcVerif.Lemmas.ConnIOBuf.write_spec s.1 s.2 h d acc
+    simpa [submitted, cstep] using this
+  | writable acc =>
+    have := flush_spec s.1 s.2 h acc
+    simpa [submitted, cstep] using this
+
+theorem submitted_cons (op : COp) (ops : List COp) : submitted (op :: ops) = submitted [op] ++ submitted ops := by
+  cases op <;> simp [submitted]
+
+open RcVerif.Lemmas.ConnIOBuf in
+/-- **C19, users**: for every sequence of writes, vectored writes and writable events and EVERY choice of how many
+    bytes the kernel accepts each time, what is on the wire followed by what is backlogged is exactly what was
+    submitted, in order -/
+theorem C19_conn_stream (maxStatic : Nat) (ops : List COp) :
+    let fin := ops.foldl cstep (({} : Pool), ({ out := { maxStatic := maxStatic } } : ConnIO.Conn))
+    fin.2.wire ++ fin.2.out.content = submitted ops := by
+  have key : ∀ (ops : List COp) (s : Pool × ConnIO.Conn), CInv s.1 s.2 →
+      stream (ops.foldl cstep s).2 = stream s.2 ++ submitted ops := by
+    intro ops
+    induction ops with
+    | nil => intro s _; simp [submitted]
+    | cons op ops ih =>
+      intro s h
+      obtain ⟨h1, h2⟩ := cstep_spec s h op
+      rw [List.foldl_cons, ih (cstep s op) h1, h2, submitted_cons op ops, List.append_assoc]
+  have h0 : CInv ({} : Pool) ({ out := { maxStatic := maxStatic } } : ConnIO.Conn) :=
+    ⟨pinv_empty, ⟨fun _ h => by simp at h, inv_empty⟩⟩
+  have := key ops (({} : Pool), ({ out := { maxStatic := maxStatic } } : ConnIO.Conn)) h0
+  simpa [stream, EBuf.content, ERing.content, LList.content] using this
 
 /- non-vacuity, kernel-evaluated: wrap-around and growth on a 4-byte ring; spill into the list -/
 example :
